@@ -40,7 +40,7 @@ def normalise(findings):
 
 
 def check(res, thorough):
-    ok_t, ok_b, ok_h = core.prepare(res, "AscaVerif.Props.C02", thorough=thorough, extra_props=["AscaVerif.Props.C02Word", "AscaVerif.Props.C02Lex", "AscaVerif.Props.C02Parse"])
+    ok_t, ok_b, ok_h = core.prepare(res, "AscaVerif.Props.C02", thorough=thorough, extra_props=["AscaVerif.Props.C02Word", "AscaVerif.Props.C02Lex", "AscaVerif.Props.C02Parse", "AscaVerif.Props.C02Numbers", "AscaVerif.Props.C02ALex", "AscaVerif.Props.C02AParse"])
     tier = "thorough" if thorough else "quick"
     scratch = core.scratch_dir("c02")
     try:
@@ -48,7 +48,7 @@ def check(res, thorough):
             stats, samples, diffs = ops_correspondence(res, scratch, "interp-ops", tier, "interp-ops", 20000, extra_args=[str(res.seed)])
             res.coverage["interp_correspondence"] = stats
             res.coverage["traces_validated_against_impl"] = stats.get("interp.cases", 0)
-            for cmd, minops in (("lex-ops", 30000), ("parse-ops", 30000)):
+            for cmd, minops in (("lex-ops", 30000), ("parse-ops", 30000), ("aliasp-ops", 30000)):
                 st2, _, _ = ops_correspondence(res, scratch, cmd, tier, cmd, minops, extra_args=[str(res.seed)])
                 res.coverage[cmd] = st2
                 res.coverage["traces_validated_against_impl"] += st2.get(cmd.split("-")[0] + ".ops", 0)
@@ -73,7 +73,7 @@ def check(res, thorough):
                     "(words <= ~20 segments, rules <= ~40 tokens: far above |word| x |rule|); non-trivial = the call changed a word or returned an error")
         res.assumptions = ["release profile: integer overflow wraps instead of panicking (a debug build panics in more places)",
                            "stack overflow, allocation failure and wall-clock time are outside the model",
-                           "the rule lexer and parser are ported (Model/Lexer, Model/Parser) and tied by lex-ops / parse-ops; the alias lexer and parser are not: their totality is checked by the search only"]
+                           "the rule and alias lexers and parsers are ported (Model/Lexer, Parser, AliasLexer, AliasParser) and tied by lex-ops / parse-ops / aliasp-ops"]
     finally:
         shutil.rmtree(scratch, ignore_errors=True)
     return res.finish()
